@@ -98,17 +98,21 @@ func (d mutDesc) String() string {
 
 // enumerate calls fn for every mutant of seed in canonical order (simplest operator first). data is
 // only valid during the call. Returning false stops the enumeration. It returns the number of mutants visited.
-func enumerate(seed []byte, tier string, fn func(seq int, d mutDesc, data []byte) bool) int {
+func enumerate(seed []byte, tier string, from int, fn func(seq int, d mutDesc, data []byte) bool) int {
 	b := boundsFor(tier)
 	n := len(seed)
 	seq := 0
 	buf := make([]byte, 0, 2*n+16)
-	emit := func(d mutDesc, data []byte) bool {
-		ok := fn(seq, d, data)
+	// emit numbers the mutant and, unless it lies before `from`, builds and delivers it
+	emit := func(d mutDesc, build func() []byte) bool {
+		ok := true
+		if seq >= from {
+			ok = fn(seq, d, build())
+		}
 		seq++
 		return ok
 	}
-	if !emit(mutDesc{Op: "identity"}, seed) {
+	if !emit(mutDesc{Op: "identity"}, func() []byte { return seed }) {
 		return seq
 	}
 	// truncation
@@ -117,7 +121,7 @@ func enumerate(seed []byte, tier string, fn func(seq int, d mutDesc, data []byte
 		step = 512
 	}
 	for k := 0; k < n; k += step {
-		if !emit(mutDesc{Op: "truncate", A: k}, seed[:k]) {
+		if !emit(mutDesc{Op: "truncate", A: k}, func() []byte { return seed[:k] }) {
 			return seq
 		}
 	}
@@ -125,31 +129,37 @@ func enumerate(seed []byte, tier string, fn func(seq int, d mutDesc, data []byte
 	nl := len(st) - 1
 	if n > 0 && n <= b.lineOps {
 		for i := 0; i < nl; i++ { // delete line i
-			buf = append(append(buf[:0], seed[:st[i]]...), seed[st[i+1]:]...)
-			if !emit(mutDesc{Op: "delete", A: i}, buf) {
+			if !emit(mutDesc{Op: "delete", A: i}, func() []byte {
+				buf = append(append(buf[:0], seed[:st[i]]...), seed[st[i+1]:]...)
+				return buf
+			}) {
 				return seq
 			}
 		}
 		for i := 0; i < nl; i++ { // duplicate line i
-			buf = append(buf[:0], seed[:st[i+1]]...)
-			line := seed[st[i]:st[i+1]]
-			if len(line) > 0 && line[len(line)-1] != '\n' {
-				buf = append(buf, '\n')
-			}
-			buf = append(append(buf, line...), seed[st[i+1]:]...)
-			if !emit(mutDesc{Op: "duplicate", A: i}, buf) {
+			if !emit(mutDesc{Op: "duplicate", A: i}, func() []byte {
+				buf = append(buf[:0], seed[:st[i+1]]...)
+				line := seed[st[i]:st[i+1]]
+				if len(line) > 0 && line[len(line)-1] != '\n' {
+					buf = append(buf, '\n')
+				}
+				buf = append(append(buf, line...), seed[st[i+1]:]...)
+				return buf
+			}) {
 				return seq
 			}
 		}
 		for i := 0; i+1 < nl; i++ { // swap lines i, i+1
-			buf = append(buf[:0], seed[:st[i]]...)
-			second := seed[st[i+1]:st[i+2]]
-			buf = append(buf, second...)
-			if len(second) > 0 && second[len(second)-1] != '\n' {
-				buf = append(buf, '\n')
-			}
-			buf = append(append(buf, seed[st[i]:st[i+1]]...), seed[st[i+2]:]...)
-			if !emit(mutDesc{Op: "swap", A: i}, buf) {
+			if !emit(mutDesc{Op: "swap", A: i}, func() []byte {
+				buf = append(buf[:0], seed[:st[i]]...)
+				second := seed[st[i+1]:st[i+2]]
+				buf = append(buf, second...)
+				if len(second) > 0 && second[len(second)-1] != '\n' {
+					buf = append(buf, '\n')
+				}
+				buf = append(append(buf, seed[st[i]:st[i+1]]...), seed[st[i+2]:]...)
+				return buf
+			}) {
 				return seq
 			}
 		}
@@ -173,9 +183,11 @@ func enumerate(seed []byte, tier string, fn func(seq int, d mutDesc, data []byte
 			if seed[i] == c {
 				continue
 			}
-			buf = append(buf[:0], seed...)
-			buf[i] = c
-			if !emit(mutDesc{Op: "sigma", A: i, B: t}, buf) {
+			if !emit(mutDesc{Op: "sigma", A: i, B: t}, func() []byte {
+				buf = append(buf[:0], seed...)
+				buf[i] = c
+				return buf
+			}) {
 				return seq
 			}
 		}
@@ -190,9 +202,11 @@ func enumerate(seed []byte, tier string, fn func(seq int, d mutDesc, data []byte
 				if seed[i] == c {
 					continue
 				}
-				buf = append(buf[:0], seed...)
-				buf[i] = c
-				if !emit(mutDesc{Op: "setbyte", A: i, B: int(c)}, buf) {
+				if !emit(mutDesc{Op: "setbyte", A: i, B: int(c)}, func() []byte {
+					buf = append(buf[:0], seed...)
+					buf[i] = c
+					return buf
+				}) {
 					return seq
 				}
 			}
@@ -206,7 +220,7 @@ func regenerate(seed []byte, tier string, want int) (mutDesc, []byte, bool) {
 	var d mutDesc
 	var out []byte
 	found := false
-	enumerate(seed, tier, func(seq int, md mutDesc, data []byte) bool {
+	enumerate(seed, tier, want, func(seq int, md mutDesc, data []byte) bool {
 		if seq == want {
 			d, out, found = md, append([]byte{}, data...), true
 			return false
